@@ -11,7 +11,7 @@ import ast
 
 from ..cfg import cond_atoms, known_falsy, known_truthy
 from ..model import self_attr, unparse, walk_body_shallow
-from .util import (call_name, call_recv, calls_in, kwarg, need, node_assign_value, node_writes_attr, norm,
+from .util import (names_in, call_name, call_recv, calls_in, kwarg, need, node_assign_value, node_writes_attr, norm,
                    registrations, where)
 
 TECHNIQUE = "typestate on the batch handle, order-taint of containers, exception-escape vs fail_on_error, paired " \
@@ -151,15 +151,38 @@ def run(ctx):
             "a request can be appended to more than one payload (or none is found)", where(sreq, zn.stmt),
             "a message appears in two payloads of one attempt")
     # create_message_set: iterate param 0, extend in order
-    fors = [x for x in walk_body_shallow(cms.body) if isinstance(x, ast.For)]
-    good = len(fors) == 1 and unparse(fors[0].iter) == cms.params[0]
-    exts = [c for c in [x for x in ast.walk(fors[0]) if isinstance(x, ast.Call)] if call_name(c) == "extend"] if fors \
-        else []
-    for c in exts:
-        a = c.args[0]
-        if not (isinstance(a, ast.ListComp) and unparse(a.generators[0].iter) == "%s.messages" % unparse(
-                fors[0].target)):
-            good = False
+    fors = [x for x in cms.body if isinstance(x, ast.For)]
+    good = len(fors) == 1 and unparse(fors[0].iter) == cms.params[0] and isinstance(fors[0].target, ast.Name)
+    exts = []
+    if good:
+        outer = fors[0]
+        inner_iter = "%s.messages" % outer.target.id
+        # the accumulator: the list every mutation inside the loop goes to
+        muts = [c for c in ast.walk(outer) if isinstance(c, ast.Call) and isinstance(c.func, ast.Attribute) and isinstance(
+            c.func.value, ast.Name) and c.func.attr in ("append", "extend", "insert", "sort", "reverse", "pop", "remove", "clear")]
+        accs = {c.func.value.id for c in muts}
+        good = len(accs) == 1
+        parents = {}
+        for p_ in ast.walk(outer):
+            for ch in ast.iter_child_nodes(p_):
+                parents[ch] = p_
+        for c in muts:
+            if c.func.attr == "extend":
+                a = c.args[0]
+                if not (isinstance(a, (ast.ListComp, ast.GeneratorExp)) and len(a.generators) == 1 and not a.generators[0].ifs and
+                        unparse(a.generators[0].iter) == inner_iter and names_in(a.elt) & names_in(a.generators[0].target)):
+                    good = False
+                exts.append(c)
+            elif c.func.attr == "append":
+                # for v in <request>.messages: acc.append(f(v))  -- the inner loop directly holds the append
+                st = parents.get(c)
+                lp = parents.get(st) if isinstance(st, ast.Expr) else None
+                if not (isinstance(lp, ast.For) and lp is not outer and unparse(lp.iter) == inner_iter and st in lp.body and not lp.orelse and
+                        names_in(c.args[0]) & names_in(lp.target) and not any(isinstance(x, (ast.Break, ast.Continue)) for x in ast.walk(lp))):
+                    good = False
+                exts.append(c)
+            else:
+                good = False
     r.check(good and exts, "%s#extend-in-order" % cms.qname,
             "message list is not built by extending, request by request, with each request's messages in order",
             where(cms, cms.node))
